@@ -9,7 +9,7 @@ for s0 in (0, 1, 3):
         for (l1, l2) in ((1, 1), (3, 4), (6, 3), (0, 9)):
             quick = (l1, l2) in ((3, 4), (6, 3)) and mx in (5, 6, 8, s0)
             HARNESSES.append(dict(name='dynbuf_s%d_m%d_w%d_%d' % (s0, mx, l1, l2), units=['dynbuf'], file='c05_dynbuf.c', defs={'S0': s0, 'MAXSZ': mx, 'L1': l1, 'L2': l2, 'VP_ALLOC_FIXED': 16, 'VP_MEMMAX': 16}, unwind=max(mx, l1 + l2) + 4,
-                tiers=('quick', 'thorough') if quick else ('thorough',), witness=(s0 == 1 and mx == 5 and l1 == 3),
+                tiers=('quick', 'thorough') if quick else ('thorough',), witness=(l1 == 3 and mx in (5, 8)),
                 bound='initial size %d, maximum %d, writes of %d then %d bytes (all contents)' % (s0, mx, l1, l2),
                 desc='(a) DynamicStreamBuf: accepted == min(len, max - used), contents exact across growth boundaries, never beyond max, clear() rewinds'))
 ASSUMPTIONS = ['writes are byte-wise puts: store into the put area or call the real overflow() when it is full (what sputc does; xsputn bulk copies are libstdc++)',
